@@ -27,28 +27,41 @@ structure Pub where
 
 variable {α : Type}
 
-/-- `send_batch`: drain, encode as one batch, compress, frame -/
-def Pub.sendBatch (z : Compressor) (p : Pub) (ms : List Bytes) : Res Pub :=
+/-- Does the framed writer accept this frame? `MessageCodec::encode` refuses a payload (`Frame::get_length`) above
+    `lim` (`MAX_MESSAGE_SIZE`): a `Message` without headers is its bytes plus 9 (bincode's option tag and length),
+    a `BatchMessage` is its bytes. -/
+def frameFits (lim : Nat) : WFrame → Bool
+  | .message b => decide (9 + b.length ≤ lim)
+  | .batch b => decide (b.length ≤ lim)
+  | .other => true
+
+/-- `send_batch`: drain, encode as one batch, compress, frame. The batch is drained before anything can fail. -/
+def Pub.sendBatch (z : Compressor) (lim : Nat) (p : Pub) (ms : List Bytes) : Res Pub :=
   match z.compress (encodeBatch ms) with
-  | .ok b => .ok { p with batch := some [], framed := p.framed ++ [.batch b] }
+  | .ok b =>
+    if frameFits lim (.batch b) then .ok { p with batch := some [], framed := p.framed ++ [.batch b] }
+    else .err "payload-too-large"
   | .err e => .err e
   | .panic s => .panic s
 
+/-- what is left of the publisher when `send_batch` has failed: the batch is gone -/
+def Pub.dropBatch (p : Pub) : Pub := { p with batch := p.batch.map fun _ => [] }
+
 /-- `poll_ready`: with batching, frame the batch when the interval has elapsed or the size is reached -/
-def Pub.pollReady (z : Compressor) (p : Pub) (elapsed : Bool) : Res Pub :=
+def Pub.pollReady (z : Compressor) (lim : Nat) (p : Pub) (elapsed : Bool) : Res Pub :=
   match p.batch with
-  | some ms => if elapsed || decide (p.size ≤ ms.length) then p.sendBatch z ms else .ok p
+  | some ms => if elapsed || decide (p.size ≤ ms.length) then p.sendBatch z lim ms else .ok p
   | none => .ok p
 
 /-- `start_send(item)` -/
-def Pub.startSend (c : Codec α) (z : Compressor) (p : Pub) (a : α) : Res Pub :=
+def Pub.startSend (c : Codec α) (z : Compressor) (lim : Nat) (p : Pub) (a : α) : Res Pub :=
   match c.encode a with
   | .ok bytes =>
     match p.batch with
     | some ms => .ok { p with batch := some (ms ++ [bytes]) }
     | none =>
       match z.compress bytes with
-      | .ok b => .ok { p with framed := p.framed ++ [.message b] }
+      | .ok b => if frameFits lim (.message b) then .ok { p with framed := p.framed ++ [.message b] } else .err "payload-too-large"
       | .err e => .err e
       | .panic s => .panic s
   | .err e => .err e
@@ -58,29 +71,42 @@ def Pub.startSend (c : Codec α) (z : Compressor) (p : Pub) (a : α) : Res Pub :
 def Pub.flush (p : Pub) : Pub := { p with wire := p.wire ++ p.framed, framed := [] }
 
 /-- `SinkExt::send(item)`: poll_ready, start_send, poll_flush -/
-def Pub.send (c : Codec α) (z : Compressor) (p : Pub) (elapsed : Bool) (a : α) : Res Pub :=
-  match p.pollReady z elapsed with
+def Pub.send (c : Codec α) (z : Compressor) (lim : Nat) (p : Pub) (elapsed : Bool) (a : α) : Res Pub :=
+  match p.pollReady z lim elapsed with
   | .ok p1 =>
-    match p1.startSend c z a with
+    match p1.startSend c z lim a with
     | .ok p2 => .ok p2.flush
     | .err e => .err e
     | .panic s => .panic s
   | .err e => .err e
   | .panic s => .panic s
 
-def Pub.sendAll (c : Codec α) (z : Compressor) (p : Pub) : List (Bool × α) → Res Pub
+def Pub.sendAll (c : Codec α) (z : Compressor) (lim : Nat) (p : Pub) : List (Bool × α) → Res Pub
   | [] => .ok p
   | (e, a) :: rest =>
-    match p.send c z e a with
-    | .ok p' => p'.sendAll c z rest
+    match p.send c z lim e a with
+    | .ok p' => p'.sendAll c z lim rest
     | .err x => .err x
     | .panic s => .panic s
 
+/-- A caller that carries on after a failed `send`: the publisher's state after each `send`, and which sends
+    returned `Ok` (the items the publisher accepted). A `send` fails either in `poll_ready` (framing the batch: the
+    batch has been drained by then) or in `start_send` (the item itself is not taken). -/
+def Pub.sendEach (c : Codec α) (z : Compressor) (lim : Nat) (p : Pub) : List (Bool × α) → Pub × List Bool
+  | [] => (p, [])
+  | (e, a) :: rest =>
+    match p.pollReady z lim e with
+    | .ok p1 =>
+      match p1.startSend c z lim a with
+      | .ok p2 => ((p2.flush.sendEach c z lim rest).1, true :: (p2.flush.sendEach c z lim rest).2)
+      | _ => ((p1.sendEach c z lim rest).1, false :: (p1.sendEach c z lim rest).2)
+    | _ => ((p.dropBatch.sendEach c z lim rest).1, false :: (p.dropBatch.sendEach c z lim rest).2)
+
 /-- `finish()`: `flush_batch` (a non-empty batch is framed), flush the framed writer, finish the stream -/
-def Pub.finish (z : Compressor) (p : Pub) : Res Pub :=
+def Pub.finish (z : Compressor) (lim : Nat) (p : Pub) : Res Pub :=
   match p.batch with
   | some (m :: ms) =>
-    match p.sendBatch z (m :: ms) with
+    match p.sendBatch z lim (m :: ms) with
     | .ok p' => .ok p'.flush
     | .err e => .err e
     | .panic s => .panic s
